@@ -50,7 +50,7 @@ class C20(PropBase):
             cases.append({"g": {"nodes": [0, 1, 2, 3, 4], "dir": [[0, 2], [1, 2], [2, 3], [3, 4]], "bid": []}, "a": 0, "b": 1, "C": [4]})
             cases.append({"g": {"nodes": [0, 1, 2], "dir": [[0, 1], [1, 2]], "bid": [[1, 2]]}, "a": 0, "b": 2, "C": []})
         while len(cases) < n:
-            g = GG.rand_admg(rng, 2, 6, cyclic=rng.random() < 0.35)
+            g = GG.rand_admg_big(rng, cyclic=rng.random() < 0.35) if rng.random() < 0.04 else GG.rand_admg(rng, 2, 6, cyclic=rng.random() < 0.35)
             for _ in range(10):
                 a, b = rng.sample(g["nodes"], 2)
                 C = GG.rand_subset(rng, [x for x in g["nodes"] if x not in (a, b)], 0, 3)
